@@ -14,6 +14,12 @@ import (
 // ---- C10: routing ----
 
 func checkC10(h *History, vs []*opView) {
+	// In C11-focused runs the rule list is trivial (one set decides between two
+	// upstreams), so a routing mismatch is a domain-set matching mismatch.
+	prop := "C10"
+	if h.P.Focus == "C11" {
+		prop = "C11"
+	}
 	// expected upstream per token (tokens may be shared by several ops with
 	// the same name; collect all allowed upstreams for a token)
 	allowed := map[string]map[string]bool{}
@@ -42,10 +48,17 @@ func checkC10(h *History, vs []*opView) {
 				continue
 			}
 			if !a[tag] {
-				h.S.Fail("C10", "wrong-upstream", "upstream %s received token %s (name %s) which the rules do not route there (allowed: %v)", tag, q.Token, q.Name, keys(a))
+				h.S.Fail(prop, "wrong-upstream", "upstream %s received token %s (name %s) which the rules do not route there (allowed: %v)", tag, q.Token, q.Name, keys(a))
 				continue
 			}
 			h.S.Probe("c10_forward_checked")
+			if prop == "C11" {
+				if len(h.RP.Upstreams) > 1 && tag == h.RP.Upstreams[1].Tag {
+					h.S.Probe("c11_matched")
+				} else {
+					h.S.Probe("c11_unmatched")
+				}
+			}
 			if q.NQ != 1 {
 				h.S.Fail("C10", "question-count", "upstream %s got %d questions for token %s", tag, q.NQ, q.Token)
 			}
